@@ -86,19 +86,23 @@ def ResolvableL (lg : List (LBackup β)) (t : Nat) (lt : LBackup β) : Prop :=
 /-- **Planning.**  For a resolvable target in a group of well-formed backups, `RestorePlan::new` succeeds and its
 plan has the shape the execution theorem needs. -/
 theorem plan_facts (hashOf : List β → H) (hinj : ∀ x y, hashOf x = hashOf y → x = y)
-    (lg : List (LBackup β)) (t : Nat) (lt : LBackup β) (hlt : lg[t]? = some lt)
+    (lg : List (LBackup β)) (group : List (Backup H β))
+    (hG : ∀ (j : Nat) (lb : LBackup β), lg[j]? = some lb → group[j]? = some (render hashOf lb))
+    (t : Nat) (lt : LBackup β) (hlt : lg[t]? = some lt)
     (hwf : ∀ (j : Nat) (lb : LBackup β), j ≤ t → lg[j]? = some lb → WFArchive lb.es)
     (hres : ResolvableL lg t lt) :
-    ∃ p, plan (lg.map (render hashOf)) t = .ok p true ∧ PlanFacts hashOf lg t lt p := by
+    ∃ p, plan group t = .ok p true ∧ PlanFacts hashOf lg t lt p := by
   have wf := hwf t lt (Nat.le_refl _) hlt
-  have hgrp : ∀ (j : Nat) (lb : LBackup β), lg[j]? = some lb → (lg.map (render hashOf))[j]? = some (render hashOf lb) := by
-    intro j lb h; rw [List.getElem?_map, h]; rfl
-  have hgrp' : ∀ (j : Nat) (b : Backup H β), (lg.map (render hashOf))[j]? = some b → ∃ lb, lg[j]? = some lb ∧ b = render hashOf lb := by
-    intro j b h
-    rw [List.getElem?_map] at h
-    cases hl : lg[j]? with
-    | none => rw [hl] at h; cases h
-    | some lb => rw [hl] at h; simp only [Option.map_some, Option.some.injEq] at h; exact ⟨lb, rfl, h.symm⟩
+  have hgrp := hG
+  have hgrp' : ∀ (j : Nat) (b : Backup H β), j < t → group[j]? = some b → ∃ lb, lg[j]? = some lb ∧ b = render hashOf lb := by
+    intro j b hj h
+    have hlen : j < lg.length := by
+      have := (List.getElem?_eq_some_iff.mp hlt).1
+      omega
+    refine ⟨lg[j], List.getElem?_eq_getElem hlen, ?_⟩
+    have := hG j lg[j] (List.getElem?_eq_getElem hlen)
+    rw [this] at h
+    exact (Option.some.inj h).symm
   -- extern records of the target and their entries
   have hXent : ∀ x ∈ (recsOf hashOf lt).filter (fun r => !isOwn r), ∃ b ∈ lt.es, isExtE lt.stored b = true ∧
       keyE b = x.path ∧ x.hash = hashOf (contentE b) ∧ x.size = (contentE b).length := by
@@ -117,7 +121,7 @@ theorem plan_facts (hashOf : List β → H) (hinj : ∀ x y, hashOf x = hashOf y
     rw [isOwn_rec] at hr2
     exact ⟨_, he, hr2, rfl, rfl, rfl⟩
   have hnd := recs_paths_nodup hashOf lt wf
-  obtain ⟨F0, later, ext, hplan, hfk, hff, hlater, hexteq, hperm⟩ := plan_shape (lg.map (render hashOf)) t (render hashOf lt)
+  obtain ⟨F0, later, ext, hplan, hfk, hff, hlater, hexteq, hperm⟩ := plan_shape group t (render hashOf lt)
     (recsOf hashOf lt) (hgrp t lt hlt) rfl hnd
     (by
       intro r hr hro x hx hxo hxh
@@ -245,7 +249,7 @@ theorem plan_facts (hashOf : List β → H) (hinj : ∀ x y, hashOf x = hashOf y
       fansDisjoint := hnd3.1 }
   · intro s hs
     obtain ⟨hslt, b, rs, hb, hm, hkn, hkv⟩ := hlater s hs
-    obtain ⟨lb, hlb, rfl⟩ := hgrp' _ _ hb
+    obtain ⟨lb, hlb, rfl⟩ := hgrp' _ _ hslt hb
     simp only [render, Option.some.injEq] at hm
     subst hm
     refine ⟨lb, hlb, ?_⟩
